@@ -928,7 +928,9 @@ func (c *Ctx) orderFramesRule(e *Eff) int {
 			c.C.Fatalf("ORDER-FRAMES: %s reaches no frame loop (GetFrame/AddFrame pairing not found): the rule would pass vacuously for this codec", load.FuncName(ep))
 		}
 	}
-	c.C.Floor("ORDER-FRAMES", nLoops-c.controlCount("ORDER-FRAMES"), 8)
+	// the number of loops is not an invariant of the library (one shared ConvertFrames helper can serve
+	// every codec): vacuity is excluded by the coverage requirement above, the floor only asks for a loop
+	c.C.Floor("ORDER-FRAMES", nLoops-c.controlCount("ORDER-FRAMES"), 1)
 	c.C.ExpectControl("ORDER-FRAMES")
 	return nLoops
 }
